@@ -147,6 +147,15 @@ Definition lookup_fault (faults : list (nat * fkind)) (k : nat) : option fkind :
 Section Exec.
 Variable lim : option nat.                    (* SetMaxCallStackSize; None = unlimited *)
 Variable faults : list (nat * fkind).         (* the k-th probe() call (0-based) performs the fault *)
+(* [fixed = false]: goja's algorithm as it is on the current tree (model I).
+   [fixed = true] : the repaired algorithm (model S): generator/async marker+context pops also run on the panic
+   path (F16), RunProgram's recover path resets prg (F17), a recursive RunProgram whose own pushCtx overflows
+   does not pop what it never pushed (F21), a foreign Go panic leaving the outermost call drops the pending jobs (F22).
+   Wherever I deviates from S the ghost flag [leaked] is set (it is never read by the algorithm). *)
+Variable fixed : bool.
+Definition deviate (s : state) : state := set_leaked true s.
+Definition host_panic_exit (s : state) : state :=
+  if Nat.eqb (length (cs s)) 0 then (if fixed then set_jq [] s else deviate s) else s.
 
 Definition raise (p : payload) (s : state) := handle_throw p s.
 
@@ -204,9 +213,14 @@ Definition vm_try (f : state -> state * outcome) (s : state) : state * outcome :
 
 Definition leave_abrupt s := set_intr false (set_jq [] s).
 
-(* the native caller's policy on an error value returned to it *)
+Definition take_snap (s : state) : snap :=
+  (sp s, sb s, args s, prg s, length (cs s), length (ts s), length (its s), refs s, Nat.eqb (stash s) 0).
+Definition snapshot (s : state) : state := set_trace (take_snap s :: trace s) s.
+
+(* the caller's policy on an error value returned to it by Callable / RunProgram: the registers are recorded
+   (the harness does the same), a JS exception may be swallowed, anything else is re-panicked *)
 Definition policy (swallow : bool) (s : state) (p : payload) : state * outcome :=
-  if catchable p && swallow then (s, ONorm) else (s, OPanic p).
+  if catchable p && swallow then (snapshot s, ONorm) else (snapshot s, OPanic p).
 
 (* one level of infinite recursion function rec(){ rec() }: pushes contexts until pushCtx overflows *)
 Fixpoint rec_push (k : nat) (s : state) : state :=
@@ -214,9 +228,6 @@ Fixpoint rec_push (k : nat) (s : state) : state :=
   | O => add_sp 2 s
   | S k' => rec_push k' (set_sb (sp s + 1) (set_stash 0 (set_prg true (set_args 0 (push_ctx (add_sp 2 s))))))
   end.
-
-Definition take_snap (s : state) : snap :=
-  (sp s, sb s, args s, prg s, length (cs s), length (ts s), length (its s), refs s, Nat.eqb (stash s) 0).
 
 (* native call of a Go function from JS with [n] arguments already pushed (nativeFuncObject.vmCall) *)
 Definition native_call (n : Z) (f : state -> state * outcome) (s : state) : state * outcome :=
@@ -233,7 +244,7 @@ Definition native_call (n : Z) (f : state -> state * outcome) (s : state) : stat
 Definition gen_enter (s : state) : state * outcome :=
   if over lim s then (s, OPanic PSO) else
   let s1 := set_sb (-1) (set_prg false (push_try true false false (push_ctx s))) in
-  if over lim s1 then (set_leaked true s1, OPanic PSO) else
+  if over lim s1 then ((if fixed then pop_ctx (pop_try s1) else deviate s1), OPanic PSO) else
   (set_sb (sp s - 1) (set_stash 0 (set_prg true (set_args 0 (push_ctx s1)))), ONorm).
 
 (* generator.enterNext + resume of a context suspended with a 2-slot stack segment *)
@@ -257,19 +268,19 @@ Fixpoint exec (fuel : nat) (nd : node) (s : state) {struct fuel} : state * outco
         if Nat.eqb (length (cs s1)) 0 then
           match leave f s1 with (s2, ONorm) => (s2, ONorm, None) | (s2, OPanic p) =>
             if uncatchable_err p then (if Nat.eqb (length (cs s2)) 0 then leave_abrupt s2 else s2, ONorm, Some p)
-            else (s2, OPanic p, None)
+            else (host_panic_exit s2, OPanic p, None)
           | (s2, o) => (s2, o, None) end
         else (s1, ONorm, None)
     | (s1, OUnwound p) =>
         if Nat.eqb (length (cs s1)) 0 then
           match leave f s1 with (s2, ONorm) => (s2, ONorm, Some p) | (s2, OPanic p') =>
             if uncatchable_err p' then (if Nat.eqb (length (cs s2)) 0 then leave_abrupt s2 else s2, ONorm, Some p')
-            else (s2, OPanic p', None)
+            else (host_panic_exit s2, OPanic p', None)
           | (s2, o) => (s2, o, None) end
         else (s1, ONorm, Some p)
     | (s1, OPanic p) =>
         if uncatchable_err p then (if Nat.eqb (length (cs s1)) 0 then leave_abrupt s1 else s1, ONorm, Some p)
-        else (s1, OPanic p, None)
+        else (host_panic_exit s1, OPanic p, None)
     | (s1, o) => (s1, o, None)
     end in
   match nd with
@@ -278,7 +289,7 @@ Fixpoint exec (fuel : nat) (nd : node) (s : state) {struct fuel} : state * outco
   | Probe =>
       native_call 0 (fun s2 =>
         let k := pcount s2 in
-        let s3 := set_trace (take_snap s2 :: trace s2) (set_pcount (S k) s2) in
+        let s3 := snapshot (set_pcount (S k) s2) in
         match lookup_fault faults k with
         | None => (s3, ONorm)
         | Some FThrow => (s3, OPanic PCatch)
@@ -320,6 +331,12 @@ Fixpoint exec (fuel : nat) (nd : node) (s : state) {struct fuel} : state * outco
             else (pop_try s, ONorm)
         | [] => (s, OStuck)
         end in
+      (* the finally block entered with a pending exception: leaveFinally pops the frame and re-throws *)
+      let do_fin (s2 : state) (p : payload) : state * outcome :=
+        match run_items ex fin s2 with
+        | (s3, ONorm) => raise p (pop_try s3)
+        | r => r
+        end in
       match run_items ex body s1 with
       | (s2, ONorm) => finish s2
       | (s2, OCaught i h p) =>
@@ -328,13 +345,10 @@ Fixpoint exec (fuel : nat) (nd : node) (s : state) {struct fuel} : state * outco
             | HCatch =>
                 match run_items ex cat (add_sp (-1) s2) with
                 | (s3, ONorm) => finish s3
+                | (s3, OCaught i' h' p') => if Nat.eqb i' idx then do_fin s3 p' else (s3, OCaught i' h' p')
                 | r => r
                 end
-            | HFin =>
-                match run_items ex fin s2 with
-                | (s3, ONorm) => raise p (pop_try s3)
-                | r => r
-                end
+            | HFin => do_fin s2 p
             end
           else (s2, OCaught i h p)
       | r => r
@@ -398,8 +412,8 @@ Fixpoint exec (fuel : nat) (nd : node) (s : state) {struct fuel} : state * outco
                 match loop_out (run_items ex seg s4) with
                 | (s5, ONorm) => (gen_leave s5, ONorm)
                 | (s5, OPanic p) =>
-                    if catchable p then (pop_ctx (pop_try s5), OPanic p)
-                    else (set_leaked true s5, OPanic p)
+                    if catchable p || fixed then (pop_ctx (pop_try s5), OPanic p)
+                    else (deviate s5, OPanic p)
                 | r => r
                 end
             | r => r
@@ -414,7 +428,8 @@ Fixpoint exec (fuel : nat) (nd : node) (s : state) {struct fuel} : state * outco
           | (s2, ONorm) => (set_sp (sp s) (set_jq (jq s2 ++ [JAsync seg2]) (gen_leave s2)), ONorm)
           | (s2, OPanic p) =>
               if catchable p then (set_sp (sp s) (pop_ctx (pop_try s2)), ONorm)
-              else raise p (set_leaked true s2)
+              else if fixed then raise p (pop_ctx (pop_try s2))
+              else raise p (deviate s2)
           | r => r
           end
       | (s1, _) => (s1, OStuck)
@@ -459,8 +474,8 @@ Fixpoint exec (fuel : nat) (nd : node) (s : state) {struct fuel} : state * outco
         let fin (s : state) := pop_ctx (add_sp (-2) s) in
         if over lim s then
           (* pushCtx panicked before anything was pushed; the deferred function still does sp -= 2; popCtx *)
-          let s' := fin s in
-          ((if Nat.eqb (length (cs s')) 0 then leave_abrupt s' else s'), OPanic PSO)
+          let s' := if fixed then s else deviate (fin s) in
+          policy swallow (if Nat.eqb (length (cs s')) 0 then leave_abrupt s' else s') PSO
         else
         let s1 := set_prg true (add_sp 2 (set_sb (sp s + 1) (set_args 0 (set_stash 0 (push_ctx s))))) in
         match loop_out (run_items ex body (push_try true false false s1)) with
@@ -469,7 +484,7 @@ Fixpoint exec (fuel : nat) (nd : node) (s : state) {struct fuel} : state * outco
             let s3 := fin (pop_try s2) in
             if catchable p then policy swallow s3 p
             else if uncatchable_err p then
-              ((if Nat.eqb (length (cs s3)) 0 then leave_abrupt s3 else s3), OPanic p)
+              policy swallow (if Nat.eqb (length (cs s3)) 0 then leave_abrupt s3 else s3) p
             else (s3, OPanic p)
         | r => r
         end
@@ -499,7 +514,8 @@ with leave (fuel : nat) (s : state) {struct fuel} : state * outcome :=
                       (pop_ctx (pop_try (add_sp (-1) (pop_ctx (set_sp (sb s3) s3)))), ONorm)
                   | (s3, OPanic p) =>
                       if catchable p then (pop_ctx (pop_try s3), ONorm)
-                      else (set_leaked true s3, OPanic p)
+                      else if fixed then (pop_ctx (pop_try s3), OPanic p)
+                      else (deviate s3, OPanic p)
                   | r => r
                   end
               | r => r
@@ -514,26 +530,27 @@ with leave (fuel : nat) (s : state) {struct fuel} : state * outcome :=
 with run_top (fuel : nat) (body : list node) (s : state) {struct fuel} : state * outcome * option payload :=
   match fuel with O => (s, OStuck, None) | S f =>
   let fin (s : state) := set_cs (tl (cs s)) s in
-  let recov (s : state) (p : payload) : state * outcome * option payload :=
-    let s' := fin s in
+  let recov (inbody : bool) (s : state) (p : payload) : state * outcome * option payload :=
+    let s0 := fin s in
+    let s' := if fixed then set_sb (-1) (set_prg false s0) else if inbody then deviate s0 else s0 in
     if uncatchable_err p then ((if Nat.eqb (length (cs s')) 0 then leave_abrupt s' else s'), ONorm, Some p)
-    else (s', OPanic p, None) in
+    else (host_panic_exit s', OPanic p, None) in
   let s1 := set_prg true (set_cs (halt_ctx :: cs s) s) in
   match loop_out (run_items (exec f) body (push_try true false false s1)) with
   | (s2, ONorm) =>
       match leave f (set_sb (-1) (set_prg false (pop_try s2))) with
       | (s3, ONorm) => (fin s3, ONorm, None)
-      | (s3, OPanic p) => recov s3 p
+      | (s3, OPanic p) => recov false s3 p
       | (s3, o) => (s3, o, None)
       end
   | (s2, OPanic p) =>
       if catchable p then
         match leave f (set_sb (-1) (set_prg false (pop_try s2))) with
         | (s3, ONorm) => (fin s3, ONorm, Some p)
-        | (s3, OPanic p') => recov s3 p'
+        | (s3, OPanic p') => recov false s3 p'
         | (s3, o) => (s3, o, None)
         end
-      else recov (pop_try s2) p
+      else recov true (pop_try s2) p
   | (s2, o) => (s2, o, None)
   end end.
 
@@ -549,13 +566,13 @@ Definition of_go (r : state * outcome) : state * result :=
   | (s, _) => (s, RStuck)
   end.
 
-Definition api_exec (lim : option nat) (faults : list (nat * fkind)) (fuel : nat) (a : api) (s : state) : state * result :=
+Definition api_exec (lim : option nat) (faults : list (nat * fkind)) (fixed : bool) (fuel : nat) (a : api) (s : state) : state * result :=
   match a with
   | AClear => (set_intr false s, RNormal)
-  | ARun body => of_go (exec lim faults fuel (NRun false body) s)
-  | ACall body => of_go (exec lim faults fuel (NCallable false body) s)
+  | ARun body => of_go (exec lim faults fixed fuel (NRun false body) s)
+  | ACall body => of_go (exec lim faults fixed fuel (NCallable false body) s)
   | ATry acts =>
-      match vm_try (run_acts (exec lim faults fuel) acts) s with
+      match vm_try (run_acts (exec lim faults fixed fuel) acts) s with
       | (s', ONorm) => (s', RNormal)
       | (s', OUnwound p) => (s', RError p)
       | (s', OPanic p) => (s', RHostPanic)
